@@ -84,21 +84,26 @@ def cartesian {α : Type} : List (List α) → List (List α)
   | [] => [[]]
   | l :: ls => l.flatMap (fun a => (cartesian ls).map (a :: ·))
 
+/-- the variants of `o` that agree with `cand` (a variant of `self`) on the overlap of the two segments -/
+def compatSlot (self : Choice) (cand : Seq) (o : Choice) : List Seq :=
+  o.variants.filter (fun v =>
+    overlapSlice o v self.start self.stop ==
+      (cand.drop (max o.start self.start - self.start)).take (min o.stop self.stop - max o.start self.start))
+
+/-- the variants of the merged choice: for every variant of `self`, every combination of compatible variants of the
+    (sorted) `others`, concatenated, kept when its `self` window is that variant -/
+def mergeCore (self : Choice) (ostart : Nat) (others : List Choice) : List Seq :=
+  self.variants.flatMap (fun cand =>
+    (cartesian (others.map (compatSlot self cand))).filterMap (fun subseqs =>
+      let sq := subseqs.flatten
+      if (sq.drop (self.start - ostart)).take (self.stop - self.start) == cand then some sq else none))
+
 /-- `MutationChoice.merge_with(others)`; `others` sorted by start here -/
 def mergeWith (self : Choice) (others : List Choice) : Option Choice :=
   let others := others.mergeSort (fun a b => a.start ≤ b.start)
   match others.head?, others.getLast? with
   | some first, some last =>
-    let ostart := first.start
-    let finals := self.variants.flatMap (fun cand =>
-      let slots := others.map (fun o =>
-        o.variants.filter (fun v =>
-          overlapSlice o v self.start self.stop ==
-            (cand.drop (max o.start self.start - self.start)).take (min o.stop self.stop - max o.start self.start)))
-      (cartesian slots).filterMap (fun subseqs =>
-        let sq := subseqs.flatten
-        if (sq.drop (self.start - ostart)).take (self.stop - self.start) == cand then some sq else none))
-    some { start := ostart, stop := last.stop, variants := finals }
+    some { start := first.start, stop := last.stop, variants := mergeCore self first.start others }
   | _, _ => none
 
 /-- first and last+1 column at which the variants are not all equal to the reference -/
